@@ -66,3 +66,21 @@ package vgirpc
 //@   at call (*HttpServer).handleStreamCancel assert [gate_cancel] cursorAuthentic(tokenBytes, auth) && callResolved(tokenData, auth)
 //@   at call (*HttpServer).handleProducerContinuation assert [gate_producer] cursorAuthentic(tokenBytes, auth) && callResolved(tokenData, auth)
 //@   at call (*HttpServer).handleExchangeCall assert [gate_exchange] cursorAuthentic(tokenBytes, auth) && callResolved(tokenData, auth)
+
+// sealToken mints what openToken accepts: the payload is sealed under the key derived from the
+// server's whole token key and under the caller-supplied AAD, with a 24-byte nonce that
+// crypto/rand filled (a failed read mints nothing); the raw token is the version byte, then
+// the nonce, then the ciphertext — the offsets openToken slices at — and it is that raw token,
+// whole, that is base64-encoded.
+//
+//@ func (*HttpServer).sealToken
+//@   property C12
+//@   pathflag randOK
+//@   at call normalizeTokenKey assert [serverkey] arg0 == h.tokenKey
+//@   at call rand.Read assert [noncebuf] arg0 == nonce && len(nonce) == 24
+//@   at call rand.Read setflag randOK result1 == nil
+//@   at call cipher.AEAD.Seal assert [sealed] randOK && arg2 == nonce && len(arg2) == 24 && arg3 == packed && arg4 == aad
+//@   at call (*base64.Encoding).Encode assert [layout] arg2 == raw && len(raw) == 25 + len(ciphertext) && raw[0] == version &&
+//@       (forall i int :: 0 <= i && i < 24 ==> raw[1 + i] == nonce[i]) &&
+//@       (forall i int :: 0 <= i && i < len(ciphertext) ==> raw[25 + i] == ciphertext[i])
+//@   at call (*base64.Encoding).Encode assert [encodedwhole] arg1 == encoded
